@@ -106,7 +106,10 @@ struct Shared {
     server: Server<QCatalog>,
     catalogs: Vec<Arc<QCatalog>>,
     keysets: Vec<Arc<quandary::server::TsigKeyMap>>,
-    swap_lock: Mutex<()>,
+    /// catalog swaps are ordered among themselves, key-set swaps among themselves; a catalog swap
+    /// and a key-set swap may run at the same time (two different callers of the two setters)
+    cat_lock: Mutex<()>,
+    key_lock: Mutex<()>,
     cat_started: AtomicU64,
     cat_published: AtomicU64,
     key_started: AtomicU64,
@@ -119,7 +122,7 @@ struct Shared {
 impl Shared {
     /// Publishes the next catalog generation (totally ordered).
     fn swap_catalog(&self) -> bool {
-        let _g = self.swap_lock.lock().unwrap();
+        let _g = self.cat_lock.lock().unwrap();
         let next = self.cat_started.load(Ordering::SeqCst) + 1;
         if next as usize >= self.catalogs.len() {
             return false;
@@ -130,7 +133,7 @@ impl Shared {
         true
     }
     fn swap_keys(&self) -> bool {
-        let _g = self.swap_lock.lock().unwrap();
+        let _g = self.key_lock.lock().unwrap();
         let next = self.key_started.load(Ordering::SeqCst) + 1;
         if next as usize >= self.keysets.len() {
             return false;
@@ -347,7 +350,8 @@ pub fn run(ctx: &Ctx, rep: &mut Report) {
             server,
             catalogs: catalogs.clone(),
             keysets: keysets.clone(),
-            swap_lock: Mutex::new(()),
+            cat_lock: Mutex::new(()),
+            key_lock: Mutex::new(()),
             cat_started: AtomicU64::new(0),
             cat_published: AtomicU64::new(0),
             key_started: AtomicU64::new(0),
@@ -374,9 +378,25 @@ pub fn run(ctx: &Ctx, rep: &mut Report) {
         let started = Instant::now();
         let budget = Duration::from_millis(if ctx.is_miri() { 60_000 } else { 60 });
         let mut swaps = 0u64;
+        // in half of the histories a second thread rolls the keys over while this one swaps
+        // catalogs, so that the two setters run at the same time
+        let two_swappers = !ctx.is_miri() && rng.bool();
+        let key_swapper = if two_swappers {
+            let sh = shared.clone();
+            Some(std::thread::spawn(move || {
+                while !sh.stop.load(Ordering::Relaxed) {
+                    if !sh.swap_keys() {
+                        break;
+                    }
+                    std::hint::spin_loop();
+                }
+            }))
+        } else {
+            None
+        };
         loop {
             // catalogs run out first; key rollovers continue until the budget ends
-            let more = if swaps % 2 == 0 { shared.swap_catalog() || shared.swap_keys() } else { shared.swap_keys() };
+            let more = if two_swappers { shared.swap_catalog() || { std::thread::yield_now(); true } } else if swaps % 2 == 0 { shared.swap_catalog() || shared.swap_keys() } else { shared.swap_keys() };
             swaps += 1;
             if !more || started.elapsed() > budget {
                 break;
@@ -391,6 +411,9 @@ pub fn run(ctx: &Ctx, rep: &mut Report) {
             }
         }
         shared.stop.store(true, Ordering::Relaxed);
+        if let Some(h) = key_swapper {
+            let _ = h.join();
+        }
         let mut panicked = false;
         for h in handles {
             if h.join().is_err() {
